@@ -19,7 +19,7 @@ from simkit import refcodec as rc
 
 PROPERTY = "C12"
 LEVEL = "exploration"
-RUNS = {"quick": 1500, "thorough": 80000}
+RUNS = {"quick": 3000, "thorough": 80000}
 BUDGET = {"quick": 80, "thorough": 3000}
 USES_AIOCOAP_NET = False
 RULE = ("seeded scenarios: window size 1-64, receiver initialised or uninitialised (Echo recovery), 3-12 genuine "
